@@ -108,6 +108,20 @@ fn table(cfg: &Value, dense: usize, far: &[usize], out: &mut Vec<String>) -> usi
         }
         n += 1;
     }
+    // the same object again from attempt 0: a backoff is shared by every request of its layer
+    out.push(json!({"e":"rewind"}).to_string());
+    n += 1;
+    for a in 0..dense.min(8) {
+        match catch_unwind(AssertUnwindSafe(|| f(a))) {
+            Ok(Some(d)) => out.push(json!({"e":"delay","a":a,"d":units(d, unit),"far":false}).to_string()),
+            Ok(None) => out.push(json!({"e":"nodelay","a":a}).to_string()),
+            Err(_) => {
+                out.push(json!({"e":"panic","a":a}).to_string());
+                return n + 1;
+            }
+        }
+        n += 1;
+    }
     n
 }
 #[derive(Clone)]
@@ -235,7 +249,15 @@ pub fn replay(input: &str, out: &mut Vec<String>) -> (usize, usize) {
             let mut j = i + 1;
             let mut dense = 0;
             far.clear();
+            let mut rewound = false;
             while j < lines.len() && lines[j]["e"] != "reset" {
+                if lines[j]["e"] == "rewind" {
+                    rewound = true;
+                }
+                if rewound {
+                    j += 1;
+                    continue;
+                }
                 if let Some(ax) = lines[j]["ax"].as_str() {
                     far.push(ax.parse().unwrap_or(0));
                 } else if lines[j].get("a").is_some() {
